@@ -32,15 +32,16 @@ Qed.
 Lemma sea_coldef_core : forall c c', col_core c = col_core c' -> sea_coldef c = sea_coldef c'.
 Proof. intros c c' H. unfold col_core in H. unfold sea_coldef. replace (c_name c') with (c_name c) by congruence. replace (c_type c') with (c_type c) by congruence. replace (c_nullable c') with (c_nullable c) by congruence. replace (c_default c') with (c_default c) by congruence. reflexivity. Qed.
 
-Lemma with_column_core : forall v s t c (f : column_def -> list stmt),
-  schema_core v = schema_core s -> (forall x y, col_core x = col_core y -> f x = f y) ->
-  with_column v t c f = with_column s t c f.
+Lemma with_column_core : forall v s t c (f g : column_def -> list stmt),
+  schema_core v = schema_core s -> (forall x y, col_core x = col_core y -> c_name x = c -> f x = g y) ->
+  with_column v t c f = with_column s t c g.
 Proof.
-  intros v s t c f H Hf. unfold with_column. pose proof (find_table_core v s t H) as Ft.
+  intros v s t c f g H Hf. unfold with_column. pose proof (find_table_core v s t H) as Ft.
   destruct (find_table t v) as [tv|], (find_table t s) as [ts|]; try discriminate; [|reflexivity].
   cbn [option_map] in Ft. assert (Ft2 : table_core tv = table_core ts) by congruence. pose proof (find_column_core c tv ts Ft2) as Fc.
-  destruct (find_column c tv) as [x|], (find_column c ts) as [y|]; try discriminate; [|reflexivity].
-  cbn [option_map] in Fc. assert (Fc2 : col_core x = col_core y) by congruence. rewrite (Hf x y Fc2). reflexivity.
+  destruct (find_column c tv) as [x|] eqn:Fx, (find_column c ts) as [y|]; try discriminate; [|reflexivity].
+  cbn [option_map] in Fc. assert (Fc2 : col_core x = col_core y) by congruence.
+  rewrite (Hf x y Fc2 (find_column_name c tv x Fx)). reflexivity.
 Qed.
 
 Lemma lookup_column_core : forall v s t c, schema_core v = schema_core s ->
@@ -51,19 +52,55 @@ Proof.
   cbn [option_map] in Ft. apply find_column_core. congruence.
 Qed.
 
-Theorem gen_core_ext : forall v s P P' a, schema_core v = schema_core s -> gen v P a = gen s P' a.
+(* the restated attributes read the column core and "is an auto-increment key column" *)
+Lemma restated_auto_core : forall v s t c x y,
+  is_auto_col v t c = is_auto_col s t c -> c_name x = c -> c_name y = c -> c_type x = c_type y ->
+  restated_auto v t x = restated_auto s t y.
 Proof.
-  intros v s P P' a H. destruct a; cbn [gen]; try reflexivity.
+  intros v s t c x y H Hx Hy Ht. unfold restated_auto. unfold is_auto_col in H. rewrite Hx, Hy, H, Ht. reflexivity.
+Qed.
+
+Theorem gen_core_ext : forall v s P P' a, schema_core v = schema_core s -> modify_auto_agree v s a = true ->
+  gen v P a = gen s P' a.
+Proof.
+  intros v s P P' a H Hag. destruct a; cbn [gen]; try reflexivity; unfold modify_auto_agree in Hag; cbn [modify_target] in Hag;
+    apply Bool.eqb_prop in Hag.
   - (* type *) f_equal. unfold gen_modify_type. f_equal. f_equal. f_equal. unfold modify_type_coldef.
     pose proof (lookup_column_core v s table column H) as L.
-    destruct (lookup_column v table column) as [x|], (lookup_column s table column) as [y|]; try discriminate; [|reflexivity].
-    cbn [option_map] in L. unfold col_core in L. replace (c_nullable y) with (c_nullable x) by congruence. replace (c_default y) with (c_default x) by congruence. reflexivity.
-  - unfold gen_modify_nullable. apply with_column_core; [exact H|]. intros x y E. f_equal. f_equal. f_equal. apply sea_coldef_core.
-    unfold col_core in *. cbn [set_nullable c_name c_type c_nullable c_default]. congruence.
-  - unfold gen_modify_default. apply with_column_core; [exact H|]. intros x y E. f_equal. f_equal. apply sea_coldef_core.
-    unfold col_core in *. cbn [set_default c_name c_type c_nullable c_default]. congruence.
-  - unfold gen_modify_comment. apply with_column_core; [exact H|]. intros x y E. f_equal. f_equal. f_equal. apply sea_coldef_core.
-    unfold col_core in *. cbn [set_comment c_name c_type c_nullable c_default]. congruence.
+    destruct (lookup_column v table column) as [x|] eqn:Lx, (lookup_column s table column) as [y|] eqn:Ly; try discriminate; [|reflexivity].
+    cbn [option_map] in L. unfold col_core in L.
+    destruct (lookup_found v table column x Lx) as [tdx [_ Fx]]. destruct (lookup_found s table column y Ly) as [tdy [_ Fy]].
+    unfold restate_attrs.
+    rewrite (restated_auto_core v s table column (set_type new_type x) (set_type new_type y) Hag
+               (find_column_name column tdx x Fx) (find_column_name column tdy y Fy) eq_refl).
+    cbn [set_type c_comment cd_name cd_type cd_notnull cd_default cd_pk].
+    replace (c_nullable y) with (c_nullable x) by congruence. replace (c_default y) with (c_default x) by congruence.
+    replace (c_comment y) with (c_comment x) by congruence. reflexivity.
+  - unfold gen_modify_nullable. apply with_column_core; [exact H|]. intros x y E Hx. cbn zeta. f_equal. f_equal. f_equal.
+    assert (Hy : c_name y = column) by (unfold col_core in E; congruence).
+    unfold restate_attrs.
+    rewrite (restated_auto_core v s table column (set_nullable nullable x) (set_nullable nullable y) Hag Hx Hy
+               ltac:(unfold col_core in E; cbn [set_nullable c_type]; congruence)).
+    rewrite (sea_coldef_core (set_nullable nullable x) (set_nullable nullable y))
+      by (unfold col_core in *; cbn [set_nullable c_name c_type c_nullable c_default c_comment]; congruence).
+    cbn [set_nullable c_comment]. replace (c_comment y) with (c_comment x) by (unfold col_core in E; congruence). reflexivity.
+  - unfold gen_modify_default. apply with_column_core; [exact H|]. intros x y E Hx. cbn zeta. f_equal. f_equal.
+    assert (Hy : c_name y = column) by (unfold col_core in E; congruence).
+    unfold restate_attrs.
+    rewrite (restated_auto_core v s table column (set_default (option_map default_of_string new_default) x)
+               (set_default (option_map default_of_string new_default) y) Hag Hx Hy
+               ltac:(unfold col_core in E; cbn [set_default c_type]; congruence)).
+    rewrite (sea_coldef_core (set_default (option_map default_of_string new_default) x) (set_default (option_map default_of_string new_default) y))
+      by (unfold col_core in *; cbn [set_default c_name c_type c_nullable c_default c_comment]; congruence).
+    cbn [set_default c_comment]. replace (c_comment y) with (c_comment x) by (unfold col_core in E; congruence). reflexivity.
+  - unfold gen_modify_comment. apply with_column_core; [exact H|]. intros x y E Hx. cbn zeta. f_equal. f_equal. f_equal.
+    assert (Hy : c_name y = column) by (unfold col_core in E; congruence).
+    unfold restate_auto.
+    rewrite (restated_auto_core v s table column (set_comment new_comment x) (set_comment new_comment y) Hag Hx Hy
+               ltac:(unfold col_core in E; cbn [set_comment c_type]; congruence)).
+    rewrite (sea_coldef_core (set_comment new_comment x) (set_comment new_comment y))
+      by (unfold col_core in *; cbn [set_comment c_name c_type c_nullable c_default c_comment]; congruence).
+    reflexivity.
 Qed.
 
 Lemma gen_ghost_action : forall s P a, gen s P (ghost_action a) = gen s P a.
@@ -82,7 +119,8 @@ Proof.
   - cbn [simp_steps_ok] in H.
     apply Bool.andb_true_iff in H; destruct H as [H Hr].
     apply Bool.andb_true_iff in H; destruct H as [H Hap].
-    apply Bool.andb_true_iff in H; destruct H as [Hcore Hsim].
+    apply Bool.andb_true_iff in H; destruct H as [H Hsim].
+    apply Bool.andb_true_iff in H; destruct H as [Hcore Hag].
     apply same_core_b_eq in Hcore.
     cbn [ghost_plan map apply_all] in Hv. fold (ghost_plan r) in Hv.
     destruct (apply_action v (ghost_action a)) as [v1|e] eqn:A; [|discriminate].
@@ -90,7 +128,7 @@ Proof.
     assert (St : step v (ghost_action a) = v1) by (unfold step; rewrite A; reflexivity).
     rewrite St in Hr. destruct (IH v1 (step s a) v' Hr Hv) as [L [GP RP]].
     exists (st :: L). split.
-    + cbn [gen_plan]. rewrite <- (gen_core_ext v s (pending_constraints a r) (pending_constraints a r) a Hcore).
+    + cbn [gen_plan]. rewrite <- (gen_core_ext v s (pending_constraints a r) (pending_constraints a r) a Hcore Hag).
       rewrite <- (gen_ghost_action v (pending_constraints a r) a). rewrite G. fold (step s a). rewrite GP. reflexivity.
     + cbn [List.concat]. eapply run_app_ok; [exact R|exact RP].
 Qed.
